@@ -233,6 +233,8 @@ fn c07_scenario(r: &mut Report, seed: u64, case: u64) {
             continue;
         }
         r.observe("otlp:flush-returned-true", 1);
+        // one evaluation = one successful flush judged against the collector's stamps
+        r.eval();
         let before: Vec<&(u64, u64)> = emitted.iter().filter(|e| e.1 < f.call).collect();
         r.observe("otlp:events-covered-by-a-flush", before.len() as u64);
         if f.call > first_emit && f.call < last_emit && !before.is_empty() {
@@ -589,7 +591,7 @@ fn main() {
     let mut r = Report::new(
         "C07",
         &args,
-        "OTLP end-to-end: one evaluation = one scenario (2-3 emitting threads, 1-2 flushing threads, collector answering with delays and a few failures), every successful flush judged against the collector's stamps; \
+        "OTLP end-to-end: one evaluation = one scenario (2-3 emitting threads, 1-2 flushing threads, collector answering with delays and a few failures) plus one per successful flush judged against the collector's stamps; \
          non-trivial = distinct successful flushes that raced with emission (called between the first and the last emit) and covered at least one event",
     );
     if let Some(path) = &args.replay {
